@@ -552,7 +552,8 @@ Definition apply_quirks (su : startup) : startup :=
 (* SGR mouse report CSI < Cb ; Cx ; Cy M|m  (xterm ctlseqs, "Extended coordinates") *)
 Definition spec_mouse (inter : list Z) (ps : list (list Z)) (fin : Z) : option mouse :=
   match inter, ps with
-  | [60], [cb :: _; cx :: _; cy :: _] =>
+  | [i0], [cb :: _; cx :: _; cy :: _] =>
+      if negb (i0 =? 60) then None else
       let button := cb mod 4 + 64 * ((cb / 64) mod 4) in
       let mods := b2z (Z.testbit cb 2) MShift + b2z (Z.testbit cb 3) MAlt + b2z (Z.testbit cb 4) MCtrl in
       let ty := if Z.testbit cb 5 then EventMotion
@@ -564,6 +565,9 @@ Definition spec_mouse (inter : list Z) (ps : list (list Z)) (fin : Z) : option m
 (* the first value of the first parameter *)
 Definition p00 (ps : list (list Z)) : option Z :=
   match ps with (v :: _) :: _ => Some v | _ => None end.
+
+Definition p00_is (ps : list (list Z)) (v : Z) : bool :=
+  match p00 ps with Some x => x =? v | None => false end.
 
 (* CSI sequences that are key presses (everything that is not a report Vaxis knows).
    CSI R is a key only while no cursor-position request is outstanding: the caller decides. *)
@@ -577,11 +581,9 @@ Definition key_csi (inter : list Z) (ps : list (list Z)) (fin : Z) : bool :=
   else if fin =? 110 then negb (is_q inter) || negb (zlen ps =? 2)   (* DSR reply *)
   else if fin =? 117 then negb (is_q inter)                          (* kitty keyboard flags *)
   else if fin =? 126 then
-    match inter, ps with
-    | [], [] => false                                                (* bare CSI ~ : ignored *)
-    | [], _ => match p00 ps with Some 200 | Some 201 => false | _ => true end
-    | _, _ => true
-    end
+    (* bracketed-paste markers CSI 200 ~ / CSI 201 ~ and the bare CSI ~ are not keys *)
+    negb (zlen inter =? 0) ||
+    match p00 ps with Some v => negb (v =? 200) && negb (v =? 201) | None => false end
   else true.
 
 Inductive uclass := UKey | UMouse (m : mouse) | UFocusIn | UFocusOut | UPasteStart | UPasteEnd
@@ -597,12 +599,8 @@ Definition classify (req : bool) (it : item) : uclass :=
       else if fin =? 79 then UFocusOut
       else if (fin =? 77) || (fin =? 109) then
         match spec_mouse inter ps fin with Some m => UMouse m | None => UInternal end
-      else if fin =? 126 then
-        match inter, p00 ps with
-        | [], Some 200 => UPasteStart
-        | [], Some 201 => UPasteEnd
-        | _, _ => if key_csi inter ps fin then UKey else UInternal
-        end
+      else if (fin =? 126) && (zlen inter =? 0) && p00_is ps 200 then UPasteStart
+      else if (fin =? 126) && (zlen inter =? 0) && p00_is ps 201 then UPasteEnd
       else if key_csi inter ps fin then UKey else UInternal
   | _ => UInternal
   end.
